@@ -16,6 +16,7 @@ CONSTANTS
   TruncNow = FALSE
   NoExpiryTest = FALSE
   RefusalLeak = TRUE
+  StalePeek = FALSE
   Sync = FALSE
   KeepHist = TRUE
   OneGate = TRUE
